@@ -3,6 +3,7 @@ package main
 import (
 	"encoding/json"
 	"fmt"
+	"net/url"
 	"strings"
 
 	ap "github.com/go-ap/activitypub"
@@ -13,13 +14,17 @@ import (
 var c15Names = []ap.CollectionPath{ap.Outbox, ap.Inbox, ap.Liked, ap.Following, ap.Followers, ap.Likes, ap.Shares, ap.Replies}
 
 func c15Owners(r *RNG, n int) []string {
-	hosts := []string{"example.com", "example.com:8080", "sub.Example.ORG", "127.0.0.1:3000", "shares.example.com", "myinbox"}
+	hosts := []string{"example.com", "example.com:8080", "sub.Example.ORG", "127.0.0.1:3000", "shares.example.com", "myinbox",
+		"inbox", "followers", "replies:8080"} // single-label hosts spelled like a collection name
 	// … and segments that merely contain, start with or end in the letters of a collection name
 	segs := []string{"~jane", "actors", "jdoe", "inbox", "outbox", "likes", "a.b", "x-y_z", "9", "Followers", "api", "v1",
-		"dislikes", "unfollowing", "non-followers", "unliked", "reshares", "autoreplies", "mailinbox", "outbox-archive", "inboxes", "likes42"}
+		"dislikes", "unfollowing", "non-followers", "unliked", "reshares", "autoreplies", "mailinbox", "outbox-archive", "inboxes", "likes42",
+		// the characters a path segment may hold unescaped (RFC 3986 sub-delims, ':' and '@')
+		"jane+doe", "c++", "a,b", "x;y", "k=v", "it's", "(x)", "a@b", "a:b", "star*", "ex!", "$1", "a&b"}
 	out := []string{"https://example.com", "https://example.com/", "http://example.com/~jane", "https://example.com/~jane/",
 		"https://example.com/inbox", "https://example.com/actors/inbox/", "https://example.com/a%2Fb", "https://example.com/caf%C3%A9/jane",
-		"https://myinbox", "https://example.com/tags/dislikes", "https://example.com/users/inbox", "https://shares.example.com/u/1"}
+		"https://myinbox", "https://inbox", "http://outbox", "https://followers", "https://replies", "https://likes/", "https://shares:8080",
+		"https://example.com/users/jane+doe", "https://example.com/c++/maintainers/", "https://example.com/tags/dislikes", "https://example.com/users/inbox", "https://shares.example.com/u/1"}
 	for i := 0; i < n; i++ {
 		s := []string{"https", "http"}[r.Intn(2)] + "://" + r.Pick(hosts)
 		for k := r.Intn(4); k > 0; k-- {
@@ -50,11 +55,19 @@ type c15Case struct {
 }
 
 func lastSegIsName(o string) bool {
-	i := strings.LastIndex(strings.TrimRight(o, "/"), "/")
-	if o != strings.TrimRight(o, "/") {
+	// the last element of the URL's PATH (a host is no path segment: https://inbox names a server)
+	u, err := url.Parse(o)
+	if err != nil || u.Host == "" {
+		return false
+	}
+	pth := u.Path
+	if pth != strings.TrimRight(pth, "/") {
 		return false // a trailing slash: the last path element is empty
 	}
-	seg := o[i+1:]
+	seg := pth[strings.LastIndex(pth, "/")+1:]
+	if seg == "" {
+		return false
+	}
 	for _, n := range c15Names {
 		if strings.EqualFold(seg, string(n)) {
 			return true
